@@ -13,6 +13,7 @@ which the engine answers for a rule object, `_re.groups`, `_re.groupindex`.
 import Verif.C13.Loader
 import Verif.C13.Mask
 import Verif.C14.Model
+import Verif.C14.Masked
 
 namespace Verif.C13.Link
 open Verif.C13 Verif.C13.Loader
@@ -98,12 +99,9 @@ def afterLoadM (E : LinkEnv) (eng meng : Eng) (f : Nat) (s : Str) (lm : Loader.M
   match linkModule { E with mods := E.mods ++ lm.2 } f lm.1 with
   | .error e => .error (.run e)
   | .ok ops =>
-    match traceStepsM eng meng f ops s with
+    match Verif.C14.applyM eng meng f ops s with
     | .error e => .error (.run e)
-    | .ok (stm, o) =>
-      match Verif.C14.mergeSteps (stm.map (·.step)) (Verif.C14.initStart s) (Verif.C14.initEnd s) with
-      | none => .error (.run .indexError)
-      | some (sm, em) => .ok (stm, ⟨o, sm, em⟩)
+    | .ok r => .ok r
 
 def applyTextM (env : Loader.Env) (E : LinkEnv) (eng meng : Eng) (k f : Nat) (lines : List Str) (s : Str) :
     Except TErr (List StepM × Verif.C14.Result) :=
